@@ -23,7 +23,9 @@ SPEC = dict(
          "{count,sum,mean,min,max,first,last} x "
          "{f float, i int, s string (count/first/last)} x time range {unbounded, every [t_a,t_b] over the 4 stored timestamps "
          "(+ before/after in the full set)} x variant {plain, exact_statistic_query hint, field filter f>0, GROUP BY host, "
-         "GROUP BY time(2s|1s|3s), ORDER BY time DESC, all calls of a field in one statement, and combinations in the full set} "
+         "GROUP BY time(2s), ORDER BY time DESC, all calls of a field in one statement, GROUP BY host DESC, filter + GROUP BY host, "
+         "GROUP BY time DESC, filter + GROUP BY time (reduced set, 11 variants); + hint/filter DESC, GROUP BY time(1s|3s), hint + host "
+         "(+ DESC), time + host, hint + filter + time, multi + hint, multi DESC (full set, 21 variants)} "
          "is executed through executor.Select and compared, group by group, with the function applied to the rows of the plain "
          "read for the same range and filter; without hint / filter / bucket the comparison is made only for histories in which "
          "no (series,timestamp) was written in two flush generations (counter excluded_cross_generation otherwise); "
@@ -37,9 +39,10 @@ SPEC = dict(
         "the statement path is executor.Select in single-process (local storage) mode as in app/ts-server; the cluster catalogue is "
         "replaced by a one-node/one-partition/one-shard shard mapper (copy of the ts-store branch of "
         "coordinator.ClusterShardMapping.CreateLogicalPlan) and a storage facade delegating to shard.CreateLogicalPlan",
-        "level-compaction group size 2 and 2-row segments (vSetupEngineKnobs) so that short histories reach multi-segment chunks, "
-        "compacted and merged files; the out-of-order merge itself runs with 8-row segments (its column writer panics on limits "
-        "that are not multiples of 8 - reported, not this property)",
+        "level-compaction group size 2 (vSetupEngineKnobs) and 2-row segments (set by the harness itself: max-rows-per-segment is an "
+        "unvalidated ts-store option) so that short histories reach multi-segment chunks, compacted and merged files; the "
+        "out-of-order merge itself runs with 8-row segments (its column writer panics on limits that are not multiples of 8 - "
+        "reported, not this property)",
         "reference rows: cursor-level plain dump (cross-checked against the plain statement in every state and range); for the "
         "field-filter variants the engine's own plain statement with the same filter, as the statement of the property says",
         "first/last: values only; several series tying on the extreme timestamp make every tied value admissible; min/max: values only; "
